@@ -1,8 +1,10 @@
 import CMacVerif.Lemmas.Morton
 import CMacVerif.Lemmas.ShellsRange
 import CMacVerif.Lemmas.Buckets
+import CMacVerif.Lemmas.BucketsGeom
 import CMacVerif.Lemmas.AMRGrid
 import CMacVerif.Lemmas.CartesianRay
+import CMacVerif.Lemmas.CartesianSeg
 /-!
 # C16 — every position maps to exactly one cell; grid traversal conserves path
 
@@ -426,6 +428,108 @@ example : PosBox (⟨0, 0, 0, 1, 1, 1⟩ : Box3 ℝ) ∧ InBox (⟨0, 0, 0, 1, 1
     InRange ⟨3, 5, 7⟩ ⟨1, 1, 0⟩ := by
   unfold PosBox InBox InRange; norm_num
 
+/-- `get_wall_intersection` in exact arithmetic: from a point of the closed cell along a non-zero
+direction (inverse direction = 1/direction, `DBL_MAX` above every wall distance): the distance is
+≥ 0, the returned point lies in the closed cell, an index offset +1/−1 on an axis means the point
+lies on the upper/lower wall of that axis and the photon moves that way; some offset is non-zero -/
+theorem cartesian_wall_intersection (big : ℝ) (o d inv : V3 ℝ) (cell : Box3 ℝ) (ho : ClosedIn cell o)
+    (hix : d.x ≠ 0 → inv.x = 1 / d.x) (hiy : d.y ≠ 0 → inv.y = 1 / d.y) (hiz : d.z ≠ 0 → inv.z = 1 / d.z)
+    (hd : d.x ≠ 0 ∨ d.y ≠ 0 ∨ d.z ≠ 0)
+    (hbx : d.x ≠ 0 → wallDist big o.x d.x inv.x cell.ax (cell.ax + cell.sx) < big)
+    (hby : d.y ≠ 0 → wallDist big o.y d.y inv.y cell.ay (cell.ay + cell.sy) < big)
+    (hbz : d.z ≠ 0 → wallDist big o.z d.z inv.z cell.az (cell.az + cell.sz) < big) :
+    let w := wallIntersection big o d inv cell
+    0 ≤ w.2.2 ∧ ClosedIn cell w.1 ∧
+    (w.2.1.x = 1 → 0 < d.x ∧ w.1.x = cell.ax + cell.sx) ∧ (w.2.1.x = -1 → d.x < 0 ∧ w.1.x = cell.ax) ∧
+    (w.2.1.y = 1 → 0 < d.y ∧ w.1.y = cell.ay + cell.sy) ∧ (w.2.1.y = -1 → d.y < 0 ∧ w.1.y = cell.ay) ∧
+    (w.2.1.z = 1 → 0 < d.z ∧ w.1.z = cell.az + cell.sz) ∧ (w.2.1.z = -1 → d.z < 0 ∧ w.1.z = cell.az) ∧
+    (w.2.1.x ≠ 0 ∨ w.2.1.y ≠ 0 ∨ w.2.1.z ≠ 0) :=
+  wallIntersection_spec big o d inv cell ho hix hiy hiz hd hbx hby hbz
+
+/-- the traversal stays geometric: for a grid as the constructor builds it, a start in the
+half-open box and a ray satisfying `RayOK`, after ANY number of loop iterations every recorded
+path length is ≥ 0 and credited to a cell of the grid; the photon position always lies in the
+closed box of its current cell (through wall crossings, edge/corner crossings and periodic
+wraps), in particular an absorbed photon ends inside the box, in the closed cell it is in. -/
+theorem cartesian_segments (big : ℝ) (box : Box3 ℝ) (n : I3) (px py pz : Bool) (m : Medium ℝ) (p d inv : V3 ℝ)
+    (tau : ℝ) (fuel : Nat) (hnx : 0 < n.x) (hny : 0 < n.y) (hnz : 0 < n.z) (hb : PosBox box) (hp : InBox box p)
+    (hr : RayOK big (mkGrid box n px py pz) d inv) :
+    let g := mkGrid box n px py pz
+    let r := interact big g m p d inv tau fuel
+    (∀ e ∈ r.path, 0 ≤ e.2 ∧ 0 ≤ e.1 ∧ e.1 < n.x * n.y * n.z) ∧
+    (r.finished = true → r.cell.isSome →
+      ∃ i : I3, InRange n i ∧ ClosedIn (cellBox g i) r.pos ∧ ClosedIn box r.pos) := by
+  intro g r
+  have hg : GridOK g := ⟨hnx, hny, hnz, hb.1, hb.2.1, hb.2.2, by simp [g, mkGrid, ofInt_real],
+    by simp [g, mkGrid, ofInt_real], by simp [g, mkGrid, ofInt_real]⟩
+  obtain ⟨hrange, hin, _, _, _, _⟩ := cartesian_unique_cell box n px py pz p hnx hny hnz hb hp
+  set st0 : St ℝ := ⟨p, cellIndices g p, tau, [], none, 0.0⟩ with hst0
+  have h0 : SegInv g st0 := by
+    refine ⟨?_, ?_, by simp [hst0]⟩
+    · obtain ⟨a1, a2, a3, a4, a5, a6⟩ := hin
+      exact ⟨a1, a2.le, a3, a4.le, a5, a6.le⟩
+    · have hrange' : InRange n (cellIndices g p) := hrange
+      obtain ⟨a1, a2, a3, a4, a5, a6⟩ := hrange'
+      show Near g.n (cellIndices g p)
+      have hn : g.n = n := rfl
+      rw [hn]; unfold Near; omega
+  obtain ⟨hpath, hexit⟩ := loop_seg big g hg m d inv hr fuel st0 h0
+  refine ⟨hpath, ?_⟩
+  intro hfin hcell
+  have hfin' : (loop big g m d inv fuel st0).2 = true := hfin
+  obtain ⟨se, hse, hseg⟩ := hexit hfin'
+  -- absorbed: the final index is inside the grid
+  have hflag : (isInside g (loop big g m d inv fuel st0).1.idx (loop big g m d inv fuel st0).1.pos).1 = true := by
+    by_contra hcon
+    have : r.cell = none := by
+      show (if (isInside g (loop big g m d inv fuel st0).1.idx (loop big g m d inv fuel st0).1.pos).1 = true
+        then (loop big g m d inv fuel st0).1.last else none) = none
+      rw [if_neg hcon]
+    rw [this] at hcell; simp at hcell
+  have hfl : gridFlag g se.idx = true := by
+    rw [(isInside_flag g _ _).1, hse] at hflag
+    have : (wrapSt g se).idx = gridIdx g se.idx := (isInside_flag g se.idx se.pos).2
+    rw [this, (grid_idem g se.idx hnx hny hnz).2] at hflag
+    exact hflag
+  obtain ⟨hs, hrng⟩ := wrap_seg g hg se hseg hfl
+  refine ⟨(wrapSt g se).idx, ?_, ?_, ?_⟩
+  · obtain ⟨a1, a2, a3, a4, a5, a6⟩ := hrng; exact ⟨a1, a2, a3, a4, a5, a6⟩
+  · show ClosedIn (cellBox g (wrapSt g se).idx) (loop big g m d inv fuel st0).1.pos
+    rw [hse]; exact hs.inCell
+  · -- a closed cell of the grid lies in the closed box
+    show ClosedIn box (loop big g m d inv fuel st0).1.pos
+    rw [hse]
+    obtain ⟨c1, c2, c3, c4, c5, c6⟩ := hs.inCell
+    obtain ⟨a1, a2, a3, a4, a5, a6⟩ := hrng
+    simp only [cellBox, ofInt_real, hg.csx, hg.csy, hg.csz] at c1 c2 c3 c4 c5 c6
+    have hx' : (0 : ℝ) < (n.x : ℝ) := by exact_mod_cast hnx
+    have hy' : (0 : ℝ) < (n.y : ℝ) := by exact_mod_cast hny
+    have hz' : (0 : ℝ) < (n.z : ℝ) := by exact_mod_cast hnz
+    have key : ∀ (a S v : ℝ) (nn i : Int), 0 < S → (0 : ℝ) < (nn : ℝ) → 0 ≤ i → i < nn →
+        a + S / (nn : ℝ) * (i : ℝ) ≤ v → v ≤ a + S / (nn : ℝ) * (i : ℝ) + S / (nn : ℝ) → a ≤ v ∧ v ≤ a + S := by
+      intro a S v nn i hS hn hi0 hi1 l1 l2
+      have hcs : 0 < S / (nn : ℝ) := div_pos hS hn
+      have hi0' : (0 : ℝ) ≤ (i : ℝ) := by exact_mod_cast hi0
+      have hi1' : (i : ℝ) + 1 ≤ (nn : ℝ) := by exact_mod_cast hi1
+      have e : S / (nn : ℝ) * (nn : ℝ) = S := by field_simp
+      constructor
+      · have := mul_nonneg hcs.le hi0'; linarith
+      · have := mul_le_mul_of_nonneg_left hi1' hcs.le; nlinarith
+    have kx := key box.ax box.sx _ n.x _ hb.1 hx' a1 a2 c1 c2
+    have ky := key box.ay box.sy _ n.y _ hb.2.1 hy' a3 a4 c3 c4
+    have kz := key box.az box.sz _ n.z _ hb.2.2 hz' a5 a6 c5 c6
+    exact ⟨kx.1, kx.2, ky.1, ky.2, kz.1, kz.2⟩
+
+/-- non-vacuity: a ray along +x in a 2×2×2 grid over the unit box, `big = 10` -/
+example : RayOK 10 (mkGrid (⟨0, 0, 0, 1, 1, 1⟩ : Box3 ℝ) ⟨2, 2, 2⟩ false false false) ⟨1, 0, 0⟩ ⟨1, 0, 0⟩ := by
+  refine ⟨fun _ => by norm_num, fun h => absurd rfl h, fun h => absurd rfl h, Or.inl (by norm_num), ?_⟩
+  intro i o ho
+  refine ⟨fun _ => ?_, fun h => absurd rfl h, fun h => absurd rfl h⟩
+  obtain ⟨h1, _⟩ := ho
+  simp only [cellBox, mkGrid, ofInt_real, wallDist, zero_lit] at h1 ⊢
+  norm_num at h1 ⊢
+  linarith
+
 end Cartesian
 
 /-! ## Bucket-grid nearest neighbour (`PointLocations::get_closest_neighbour`) -/
@@ -488,6 +592,43 @@ theorem nearest_is_bruteforce_partial (g : BGrid ℝ) (p : V3 ℝ) (fuelR fuel :
     have := h4 q hq
     rw [h3] at this
     exact this
+
+/-- the covered-radius bound is a theorem when every stored point lies in the cell of its
+bucket and the query lies in its anchor cell (`Geo`): `hcover` of
+`nearest_is_bruteforce_partial` can be discharged -/
+theorem nearest_covered_radius_bound (g : BGrid ℝ) (p : V3 ℝ) (ax ay az : Int) (hg : Geo g p ax ay az)
+    (L k q : Nat) (hL : 1 ≤ L) (hin : Inside ax ay az g.n g.n g.n (iter k)) (hlev : (L : Int) ≤ (iter k).level)
+    (hq : q ∈ bucketAt g ax ay az (iter k)) :
+    maxRadius2 (boundsAt g p ax ay az L) ≤ d2 g p q :=
+  cover_bound g p ax ay az hg L k q hL hin hlev hq
+
+/-- hence: the search returns the brute-force nearest neighbour whenever the points lie in their
+buckets and the query in its anchor cell (exact arithmetic; fuel of the model loops not
+exhausted) -/
+theorem nearest_is_bruteforce (g : BGrid ℝ) (p : V3 ℝ) (fuelR fuel : Nat)
+    (hg : Geo g p (anchorIndex p.x g.anchor.x g.cs.x) (anchorIndex p.y g.anchor.y g.cs.y)
+      (anchorIndex p.z g.anchor.z g.cs.z))
+    (hfuelR : ∀ k, Inside (anchorIndex p.x g.anchor.x g.cs.x) (anchorIndex p.y g.anchor.y g.cs.y)
+      (anchorIndex p.z g.anchor.z g.cs.z) g.n g.n g.n (iter k) → k ≤ fuelR)
+    (he : (closest g p fuelR fuel).2 ≠ .fuel) :
+    let r := (closest g p fuelR fuel).1.best
+    let pts := AllPts g (anchorIndex p.x g.anchor.x g.cs.x) (anchorIndex p.y g.anchor.y g.cs.y)
+      (anchorIndex p.z g.anchor.z g.cs.z)
+    (r.r2 < 0 ∧ ∀ q, ¬ pts q) ∨
+    (pts r.idx ∧ r.r2 = dist2 (g.pos r.idx) p ∧ ∀ q, pts q → dist2 (g.pos r.idx) p ≤ dist2 (g.pos q) p) :=
+  nearest_is_bruteforce_partial g p fuelR fuel ⟨hg.hax, hg.hay, hg.haz⟩ hfuelR
+    (fun L k q hL hin hlev hq => cover_bound g p _ _ _ hg L k q hL hin hlev hq) he
+
+/-- non-vacuity: a one-bucket grid over the unit box with one stored point satisfies `Geo` -/
+example : Geo (⟨⟨0, 0, 0⟩, ⟨1, 1, 1⟩, 1, fun ix iy iz => if ix = 0 ∧ iy = 0 ∧ iz = 0 then [0] else [],
+      fun _ => ⟨0.25, 0.5, 0.75⟩⟩ : BGrid ℝ) ⟨0.3, 0.3, 0.3⟩ 0 0 0 := by
+  refine ⟨by norm_num, by norm_num, by norm_num, by norm_num, by norm_num, by norm_num,
+    by norm_num, by norm_num, by norm_num, ?_⟩
+  intro ix iy iz q hq
+  simp only at hq
+  split_ifs at hq with h
+  · obtain ⟨rfl, rfl, rfl⟩ := h; norm_num
+  · simp at hq
 
 end Buckets
 
